@@ -10,6 +10,7 @@
 (*                key k                                                    *)
 (*     perm[k]    PickServer(key k) of a selector given the same servers   *)
 (*                in another order                                         *)
+(*     lex[k]     ... given the same servers in lexicographic order        *)
 (*  in.kind = "add": in.n servers, then one more whose rank among all is   *)
 (*     in.pos.  before[k] / after[k] = PickServer(key k) before / after    *)
 (*     SetServers with the added server; new = its rank (= in.pos).        *)
@@ -30,7 +31,7 @@ EXTENDS TraceLib, Hashring
 (*     visiting orders; list_a / list_b = Each() order under A / B; crashes = recovered panics.*)
 Judge(e) ==
     IF ~e.ok THEN {}
-    ELSE IF e.in.kind = "place" THEN C49PlaceClauses(e.single, e.batch, e.perm)
+    ELSE IF e.in.kind = "place" THEN C49PlaceClauses(e.single, e.batch, e.perm) \cup C49PlaceClauses(e.single, e.batch, e.lex)
     ELSE IF e.in.kind = "conc" THEN C49ConcClauses(e.pick_a, e.pick_b, e.picks, e.batches, e.eachs, e.list_a, e.list_b, e.crashes)
     ELSE C49AddClauses(e.before, e.after, e.new)
 
